@@ -20,8 +20,8 @@ import numpy as np
 from harness import common as C
 
 PROP = "C14"
-TARGETS = ["IbicusModel.Props.C14"]
-GEN = ["Contract"]
+TARGETS = ["IbicusModel.Props.C14", "IbicusModel.Lemmas.GenWinDispatch"]  # GenWinDispatch: F14 clause, the dispatch of CDFt / QDM apply_on_window regenerated (the audit imports it)
+GEN = ["Contract", "WinDispatch", "Loops"]
 
 ARGS = ["obs", "cm_hist", "cm_future"]
 N = {"obs": 40, "cm_hist": 50, "cm_future": 60}  # three different time lengths, always
